@@ -305,7 +305,7 @@ func checkC10(r *vlib.Run) int {
 // daemonCorrelation is level (c) of C01/C02/C04 (thorough tier): identities,
 // exactly-once and silence checked on the daemon's output file.
 func daemonCorrelation(r *vlib.Run, class string) {
-	nScen := 20
+	nScen := r.Pick(4, 20)
 	checked, lines := 0, 0
 	for s := 0; s < nScen; s++ {
 		rng := vlib.NewRng(r.Seed, fmt.Sprintf("%s/daemon/%d", class, s))
